@@ -16,6 +16,7 @@ import concurrent.futures
 import json
 import os
 import signal
+import time
 
 import common
 from common import C, Nat, Raw, to_coq
@@ -97,10 +98,12 @@ def _alarm(signum, frame):
 
 
 def guarded(f, *a):
-    """lib.attempt with a CPU-time guard (a hostile quantity field can make
-    the library loop for a very long time: C08's subject, not ours)."""
+    """lib.attempt with a time guard (a hostile quantity field can make the
+    library loop for a very long time: C08's subject, not ours).  Cases the
+    library needs more than 0.4 s for are dropped and counted: the model
+    evaluated by vm_compute is some 100 times slower per element."""
     old = signal.signal(signal.SIGALRM, _alarm)
-    signal.setitimer(signal.ITIMER_REAL, 2.0)
+    signal.setitimer(signal.ITIMER_REAL, 0.4)
     try:
         try:
             return ('ok', f(*a))
@@ -618,7 +621,13 @@ def run_coq(ctx, cs):
 
     def work(job):
         i, enc, spec, dec = job
-        return job, ctx.coq_eval('shard%d' % i, O.COQ_IMPORTS, shard_body(cs, enc, spec, dec), timeout=1500)
+        t0 = time.time()
+        body = shard_body(cs, enc, spec, dec)
+        t1 = time.time()
+        r = ctx.coq_eval('shard%d' % i, O.COQ_IMPORTS, body, timeout=1500)
+        times.append((i, round(t1 - t0, 1), round(time.time() - t1, 1), len(body)))
+        return job, r
+    times = []
     ctx.log('coq: %d encode, %d x696, %d decode cases in %d shard(s)' % (ne, ns, nd, nsh))
     bad = []
     with concurrent.futures.ThreadPoolExecutor(max_workers=8) as ex:
@@ -626,6 +635,7 @@ def run_coq(ctx, cs):
             _, enc, spec, dec = job
             b_enc, b_spec, b_dec = res
             bad += [('enc', enc[j]) for j in b_enc] + [('spec', spec[j]) for j in b_spec] + [('dec', dec[j]) for j in b_dec]
+    ctx.extra['shard_times'] = sorted(times)
     ctx.extra['agreement'] = {'encode_cases': ne, 'x696_cases': ns, 'decode_cases': nd, 'disagreements': len(bad)}
     shown = 0
     for kind, c in bad:
